@@ -360,6 +360,10 @@ C10_Mem(zz) ==
         body \in { <<"rbx", "+", "rcx">>, <<"rbx", "+", "2", "*", "rcx">>, <<"4", "*", "rcx">>, <<"rbx", "+", "rcx", "*", "2", "+", "8">>, <<"rcx", "*", "8">>,
                    <<"rbx", "+", "rcx", "+", "0x10">>, <<"ebx", "+", "ecx">>, <<"r12", "+", "r13", "*", "4">>, <<"rbx", "-", "0x10">>, <<"rsp">>, <<"rbx", "+", "rsp">> } }
 \cup { Raw("unclosed-bracket", u \o body \o <<"]">> \o MemTail(u)) : u \in MemUsers, body \in { <<"rbx", "+", "rcx">>, <<"rax">>, <<"rbx", "+", "rcx", "*", "2">> } }
+\* the displacement in front of the registers is not a memory expression of this assembler (it used to be assembled into garbage)
+\cup { Raw("displacement-first", u \o <<"[">> \o body \o <<"]">> \o MemTail(u)) : u \in MemUsers,
+        body \in { <<"0x10", "+", "rax">>, <<"16", "+", "rax">>, <<"0x10", "+", "rax", "*", "4">>, <<"0x12345678", "+", "eax", "*", "8">>, <<"-", "0x10", "+", "rax">>,
+                   <<"0x10", "+", "rax", "+", "rbx">>, <<"8", "+", "r12", "+", "r13", "*", "2">> } }
 C10_Empty(zz) ==
      { Raw("empty-operand", <<mn, " ", ",", "rax">>) : mn \in {"add", "mov", "push", "imul", "vpaddb", "shld"} }
 \cup { Raw("empty-operand", <<mn, " ", "rax", ",", ",", "rbx">>) : mn \in {"add", "mov", "imul", "shld", "bzhi"} }
